@@ -276,6 +276,7 @@ class LogCase:
         self.variants: dict[str, Files] = {}
         self.lines: dict[str, list[bytes]] = {}
         self.offsets: dict[str, list[int]] = {}
+        self.base_fail: set[str] = set()  # round-trip clauses that fail on the plain prefixed file
         # failure shapes of records(p,k,rev) without history: on a fresh reader / on a reader whose len() was taken first
         self.base: dict[tuple[Any, ...], set[str | None]] = {}
         zpath = d / "as-written.json.zst"
@@ -321,34 +322,37 @@ def M_digest(obj: Any) -> int:
 def check_roundtrip(lc: LogCase, variant: str, cont: str, reader: Any, baseline_ok: bool) -> bool:
     """len + default forward read against the reference list."""
     where = f"{variant}/{cont}"
-    only = "" if not baseline_ok or (variant, cont) == ("prefix", "plain") else f"|only-{variant}-{cont}"
+    is_base = (variant, cont) == ("prefix", "plain")
     case = {"variant": variant, "container": cont, "op": "records()"}
+
+    def bad(clause: str, msg: str, extra: dict[str, Any] | None = None) -> None:
+        # a clause that already fails on the plain prefixed file keeps its signature on the other containers;
+        # a failure that only a certain container / variant shows is named after it
+        if is_base:
+            lc.base_fail.add(clause)
+            only = ""
+        else:
+            only = "" if clause in lc.base_fail or not baseline_ok else f"|only-{variant}-{cont}"
+        lc.violate(f"C17|{clause}{only}", f"{msg} [{where}]", {**case, **(extra or {})})
+
     lc.ev(variant, cont, "len")
     ok = True
     try:
         n_obs = len(reader)
     except Exception as e:  # gallia call
-        lc.violate(f"C17|len|raises-{type(e).__name__}{only}", f"len(reader) raised {e!r} [{where}]", case)
+        bad(f"len|raises-{type(e).__name__}", f"len(reader) raised {e!r}")
         return False
     if n_obs != lc.n:
-        lc.violate(f"C17|len|wrong{only}", f"len(reader)={n_obs}, {lc.n} records were logged [{where}]", case)
-        ok = False
-    lc.ev(variant, cont, "records()", trivial=(variant, cont) == ("prefix", "plain"))
+        # reported, but the exploration goes on as long as the forward read itself is right
+        bad("len|wrong", f"len(reader)={n_obs}, {lc.n} records were logged")
+    lc.ev(variant, cont, "records()", trivial=is_base)
     try:
         recs = list(reader.records())
     except Exception as e:  # gallia call
-        lc.violate(
-            f"C17|roundtrip|raises-{type(e).__name__}{only}",
-            f"list(reader.records()) raised {e!r} on a log of {lc.n} records [{where}]",
-            case,
-        )
+        bad(f"roundtrip|raises-{type(e).__name__}", f"list(reader.records()) raised {e!r} on a log of {lc.n} records")
         return False
     if len(recs) != lc.n:
-        lc.violate(
-            f"C17|roundtrip|count{only}",
-            f"{lc.n} records logged, {len(recs)} read back [{where}]: {[short(r.data, 30) for r in recs[:6]]}",
-            case,
-        )
+        bad("roundtrip|count", f"{lc.n} records logged, {len(recs)} read back: {[short(r.data, 30) for r in recs[:6]]}")
         return False
     for i, (ref, rec) in enumerate(zip(lc.ref, recs, strict=True)):
         obs = canon(rec)
@@ -358,15 +362,11 @@ def check_roundtrip(lc: LogCase, variant: str, cont: str, reader: Any, baseline_
                 "text": f"text={spec[2]}|exc={int(spec[3])}",
                 "level": f"level={spec[0]}",
                 "tags": f"tags={M.TAGS[spec[1]]!r}".replace(" ", ""),
-                "timestamp": f"frac={ref['ts_us'] % 1_000_000}",
+                "timestamp": "subsecond" if ref["ts_us"] % 1_000_000 else "whole-second",
             }[clause]
             got = {"text": (obs["data"], obs["stacktrace"]), "level": (obs["prio"], obs["levelno"]), "tags": obs["tags"], "timestamp": obs["dt"]}[clause]
             want = {"text": ref["text"], "level": (ref["prio"], ref["levelno"]), "tags": ref["tags"], "timestamp": M.ts_datetime(ref["ts_us"])}[clause]
-            lc.violate(
-                f"C17|roundtrip|{clause}|{detail}{only}",
-                f"record {i} of {lc.n} [{where}]: {clause} logged {short(want)} read back {short(got)}",
-                {**case, "record": i},
-            )
+            bad(f"roundtrip|{clause}|{detail}", f"record {i} of {lc.n}: {clause} logged {short(want)} read back {short(got)}", {"record": i})
             ok = False
     if ok and (variant, cont) == ("prefix", "plain"):
         lc.fw = recs
@@ -988,9 +988,9 @@ def replay(doc: dict[str, Any]) -> Result:
 
 def finish(merged: Result, tier: str) -> dict[str, Any]:
     c = merged.counters
-    if c.get("logs_without_baseline", 0) > c.get("logs", 0) // 2:
-        raise Broken("vacuous: most logs could not be read back at all - navigation was not explored")
-    if not c.get("transitions"):
+    if c.get("logs_without_baseline", 0) and not merged.violations:
+        raise Broken("vacuous: logs could not be read back, yet no violation was reported")
+    if not c.get("transitions") and not merged.violations:
         raise Broken("vacuous: no reader operation sequence explored")
     fams = set(merged.notes.get("items_per_family", {}))
     need = {"lvseq", "txseq", "alpha", "bfs", "flevel"} | ({"pair"} if BOUNDS[tier]["pairs"] else set())
